@@ -21,7 +21,8 @@ SNext == \/ \E p \in Procs : Producer(p) /\ Tag("P" \o ToString(p))
 SSpec == SInit /\ [][SNext]_svars
 SView == vars
 
-Emit(kind, name) == PrintT(<<kind, name, ToJson(sched)>>)
+\* one string per line: TLC wraps long tuples but never a string
+Emit(kind, name) == PrintT("@@" \o kind \o "|" \o name \o "|" \o ToJson(sched))
 \* simulation export: print the schedule of every complete behaviour
 EmitDone == ~Done \/ Emit("SCHED", "done")
 \* blocked-writer export: all producers finished and the consumer is stuck in the writer
